@@ -355,3 +355,111 @@ func vh_C13_selftest() {
 	}
 	vxAssert(a.Collect(vxTime()) == nil && len(rec.list) == 0, "selftest: deliberately false")
 }
+
+// vxEmittedSince: events recorded from index `from` on with this ID and error.
+func vxEmittedSince(rec *vxEvents, from int, id transactionID, err error) int {
+	n := 0
+	for i := from; i < len(rec.list); i++ {
+		if rec.list[i].TransactionID == id && rec.list[i].Error == err {
+			n++
+		}
+	}
+	return n
+}
+
+// Call histories from a fresh agent (complements the one-step induction: state that an implementation
+// keeps outside the transaction table, e.g. a cached "last collect time", only shows in sequences).
+func vh_C13_history() {
+	rec := &vxEvents{}
+	a := NewAgent(rec.handle)
+	rec.agent = a
+	ids := [2]transactionID{vxID(), vxID()}
+	vxAssume(ids[0] != ids[1])
+	var present [2]bool
+	var deadline [2]time.Time
+	closed := false
+	depth := vxK(4, 5)
+	for step := 0; step < depth; step++ {
+		j := vxChoose(2)
+		id := ids[j]
+		from := len(rec.list)
+		switch vxChoose(5) {
+		case 0:
+			d := vxTime()
+			err := a.Start(id, d)
+			switch {
+			case closed:
+				vxAssert(errors.Is(err, ErrAgentClosed), "history: Start on a closed agent")
+			case present[j]:
+				vxAssert(errors.Is(err, ErrTransactionExists), "history: duplicate Start is rejected")
+			default:
+				vxAssert(err == nil, "history: Start of a new ID succeeds")
+				present[j], deadline[j] = true, d
+			}
+			vxAssert(len(rec.list) == from, "history: Start emits nothing")
+			vxReach("start")
+		case 1:
+			err := a.Stop(id)
+			switch {
+			case closed:
+				vxAssert(errors.Is(err, ErrAgentClosed) && len(rec.list) == from, "history: Stop on a closed agent")
+			case !present[j]:
+				vxAssert(errors.Is(err, ErrTransactionNotExists) && len(rec.list) == from, "history: Stop of an unregistered ID")
+			default:
+				vxAssert(err == nil && len(rec.list) == from+1 && vxEmittedSince(rec, from, id, ErrTransactionStopped) == 1, "history: Stop emits one stopped event")
+				present[j] = false
+			}
+			vxReach("stop")
+		case 2:
+			m := &Message{TransactionID: id}
+			err := a.Process(m)
+			if closed {
+				vxAssert(errors.Is(err, ErrAgentClosed) && len(rec.list) == from, "history: Process on a closed agent")
+			} else {
+				vxAssert(err == nil && len(rec.list) == from+1 && rec.list[from].Message == m, "history: Process emits the message")
+				present[j] = false
+			}
+			vxReach("process")
+		case 3:
+			t := vxTime()
+			err := a.Collect(t)
+			if closed {
+				vxAssert(errors.Is(err, ErrAgentClosed) && len(rec.list) == from, "history: Collect on a closed agent")
+			} else {
+				vxAssert(err == nil, "history: Collect succeeds")
+				expected := 0
+				for k := range ids {
+					if present[k] && deadline[k].Before(t) {
+						expected++
+						vxAssert(vxEmittedSince(rec, from, ids[k], ErrTransactionTimeOut) == 1, "history: a due transaction gets exactly one timeout")
+						present[k] = false
+						vxReach("collect-timeout")
+					}
+				}
+				vxAssert(len(rec.list) == from+expected, "history: Collect emits timeouts for exactly the due transactions")
+			}
+			vxReach("collect")
+		default:
+			err := a.Close()
+			if closed {
+				vxAssert(errors.Is(err, ErrAgentClosed) && len(rec.list) == from, "history: second Close")
+			} else {
+				expected := 0
+				for k := range ids {
+					if present[k] {
+						expected++
+						vxAssert(vxEmittedSince(rec, from, ids[k], ErrAgentClosed) == 1, "history: Close emits one closed event per remaining transaction")
+						present[k] = false
+					}
+				}
+				vxAssert(err == nil && len(rec.list) == from+expected, "history: Close emits nothing else")
+				closed = true
+			}
+			vxReach("close")
+		}
+		for k := range ids {
+			_, ok := a.transactions[ids[k]]
+			vxAssert(ok == (present[k] && !closed), "history: the table holds exactly the registered transactions")
+		}
+	}
+}
